@@ -3,6 +3,7 @@
 package lang
 
 import (
+	"fmt"
 	"strings"
 )
 
@@ -403,6 +404,45 @@ func ReducedStatements(extNames bool) []Stmt {
 		)
 	}
 	return out
+}
+
+// LongListStatements: dependency, output and argument lists longer than any initial
+// capacity a parser is likely to pick (9, 10, 17, 33 entries), every entry distinct and
+// tagged with its statement, next to short lists.
+func LongListStatements() []Stmt {
+	list := func(tag string, n int) []Arg {
+		var out []Arg
+		for i := 0; i < n; i++ {
+			if i%3 == 2 {
+				out = append(out, Arg{true, fmt.Sprintf("%s_id_%c%c", tag, 'a'+i/26, 'a'+i%26)})
+			} else {
+				out = append(out, Arg{false, fmt.Sprintf("%s/f%02d.go", tag, i)})
+			}
+		}
+		return out
+	}
+	strs := func(tag string, n int) []Arg {
+		var out []Arg
+		for i := 0; i < n; i++ {
+			out = append(out, Arg{false, fmt.Sprintf("%s-%02d", tag, i)})
+		}
+		return out
+	}
+	return []Stmt{
+		{Kind: KTask, Name: "a", Deps: list("a", 9), Cmds: []string{"echo a"}},
+		{Kind: KTask, Name: "b", Deps: list("b", 10)},
+		{Kind: KTask, Name: "c", Deps: list("c", 17), Cmds: []string{"echo c"}},
+		{Kind: KTask, Name: "d", Deps: list("d", 33)},
+		{Kind: KTask, Name: "e", Outs: list("e", 9), Cmds: []string{"echo e"}},
+		{Kind: KTask, Name: "f", Outs: list("f", 17)},
+		{Kind: KTask, Name: "g", Deps: list("gd", 9), Outs: list("go", 9), Cmds: []string{"echo g"}},
+		{Kind: KAssign, Name: "H", IsCall: true, Fn: "join", Args: strs("h", 9)},
+		{Kind: KAssign, Name: "I", IsCall: true, Fn: "join", Args: strs("i", 17)},
+		{Kind: KTask, Name: "j", Deps: list("jd", 2), Outs: list("jo", 2), Cmds: []string{"echo j"}},
+		{Kind: KAssign, Name: "K", IsCall: true, Fn: "join", Args: strs("k", 2)},
+		{Kind: KTask, Name: "l", Deps: list("l", 1)},
+		{Kind: KTask, Name: "m", Deps: list("m", 8), Outs: list("mo", 8)},
+	}
 }
 
 // SmallStatements is the alphabet for three-statement files.
